@@ -203,6 +203,16 @@ def run(prop, tier, seed, t0):
         per_step.append({"step": label, "laws": sorted(laws), "onlyF": onlyf, "profile": profile, "sessions": len(sessions),
                          "tlc_distinct_states": res["distinct"], "tlc_seconds": round(res["seconds"], 1)})
     nviol, nknown = report(prop, fails_by_step, known)
+    abstract = None
+    if prop in ("C05", "C06", "C07", "C09", "C11", "C12"):
+        # the law this check enforces on traces is a consequence of the contract in the abstract machine
+        ra, dta = vlib.abstract_laws(os.path.join(vlib.OUT, prop, "abstract"), maxcalls=2 if tier == "quick" else 2)
+        if ra["tool_errors"] or ra["violated"]:
+            raise ToolError("BoolOpsAbs: the relational laws are not consequences of the contract in the abstract machine: %s" % (ra["tool_errors"] + ra["violated"])[:3])
+        log("[%s] abstract call-history machine (BoolOpsAbs): %d states, every relational law is a consequence of the contract (%.0fs)" % (prop, ra["distinct"], dta))
+        abstract = {"states": ra["distinct"], "seconds": round(dta, 1)}
+        tot_gen += ra["generated"]
+        tot_dist += ra["distinct"]
     layer_m = []
     for mi, (fam, n, l, sq, st, sc, invs) in enumerate(MODEL_PLAN.get(prop, [])):
         stride = sq if tier == "quick" else st
@@ -253,7 +263,7 @@ def run(prop, tier, seed, t0):
         "exhaustive": False, "large_scenarios": big_events, "undecided_calls": undecided_total,
         "layer_m": [{k: v for k, v in r.items() if k != "labels"} for r in layer_m],
         "layer_m_branch_labels": {k: v for r in layer_m for k, v in r["labels"].items()},
-        "spec_drift": sum(r["drift"] for r in layer_m),
+        "spec_drift": sum(r["drift"] for r in layer_m), "abstract_machine": abstract,
     }
     vlib.write_evidence(prop, tier, seed, "model_checking", cov, time.time() - t0, nviol, ASSUME)
     log("[%s] %s: %d calls in %d sessions validated by TLC, %d violations, %d known findings, %.0fs" % (
